@@ -22,6 +22,14 @@ CHECKS = {
   "exhaustive enumeration of (W) crate-written files over writer histories x codecs x schemas x user-metadata variants, taken apart by an independent parser that checks magic, metadata keys and values, avro.schema = schema.json(), spec codec names, sync markers, per-block count/size and codec framing (raw deflate via libflate, snappy + big-endian CRC-32 of the uncompressed data); (R) reference-written files over all block partitionings incl. 0-object blocks, all key orders of <= 4 metadata keys, map layouts with negative counts, avro.codec absent, read by the real Reader; thorough adds apache-avro as second implementation in both directions",
   "trusted: vmodel container writer/parser; apache-avro 0.17 (thorough); bounds: <= 4 (quick) / <= 6 (thorough) values per file, whole-buffer readers only (small-refill readers are C05/C11)",
   "small-scope exhaustive enumeration of files against an independent container parser/writer", "DESIGN.md §4 C06"),
+ "C13": ("model_checking",
+  "SAE: the serialization itself is the choice tree - at every record occurrence and step the driver picks any not-yet-presented field (all n! orders, nested occurrences independently), end (all omission subsets) or once per run an unknown / duplicate field at every position, in struct / map-entry / map-split-key-value styles, over all vectors of <= 4 (thorough 5) flat field types and families with nested records, arrays of records, nullable records; oracle: Ok bytes = reference encoding in schema order with omitted nullable fields as null, injections => Err, never a panic; HIST: the real DatumSerializer's serialize_struct state machine driven one call at a time with a shared-handle sink, after every serialize_field the bytes emitted so far must be exactly the encodings of fields 0..j-1 (j = smallest index not yet presented)",
+  "trusted: vmodel encoder; bounds: records of <= 4/5 fields, <= 2-3 nested levels; a handle that returned Err is not used further (well-behaved Serialize)",
+  "small-scope exhaustive enumeration of presentation orders + explicit-state exploration of the serializer's record state machine", "DESIGN.md §4 C13"),
+ "C14": ("model_checking",
+  "explicit-state BFS over operations on ONE SerializerConfig: ok(v) for every presentation of fixed datums (orders, nested orders, bytes as serialize_bytes / seq with and without length, struct/map styles, omitted nulls), fail_at(v,k) for every serde call index k, io_fail(v,n) for every n below the encoding length, crate-rejected presentations (unknown/duplicate/missing field with buffers outstanding down to three record levels, bad elements inside a buffered seq->bytes, wrong lengths); exact state key = the (len, capacity) lists of both buffer pools (hook H4); after every operation: no panic, outcome and sink bytes equal the same operation on a fresh config (= reference encoding), every pooled buffer empty; every unit's state space closes (depth <= 7), so the result holds for histories of any length over the alphabet",
+  "trusted: vmodel encoder; hook SerializerConfig::verif_pools (H4); bounds: 6 (quick) / 8 (thorough) schema units, the operation alphabet above",
+  "explicit-state BFS over API histories with an exact state key, closed state space", "DESIGN.md §4 C14"),
  "C15": ("model_checking",
   "explicit-state BFS over container-writer histories (serialize small/block-sized, serialize failing at every serde call index or by genuine type/length mismatch, push_serialized, finish_block, into_inner, drop) x codec x approx_block_size, the sink inspected after EVERY call (= every point at which the process could stop) by an independent container parser; exact state key = sink bytes + hooked writer bookkeeping; every non-terminal state is additionally closed by into_inner; differential oracle: the history with its failing calls deleted produces byte-identical sink contents after every call",
   "trusted: vmodel container parser and datum decoder; hook Writer::verif_state (H3) for the state key only; bounds: depth 4 (quick) / 6 (thorough), codecs null/deflate/snappy (quick) / all six (thorough)",
